@@ -1144,7 +1144,10 @@ public:
                              m_bool_to_lincsts & other.m_bool_to_lincsts,
                              m_bool_to_refcsts & other.m_bool_to_refcsts,
 			     m_bool_to_bools & other.m_bool_to_bools,
-                             m_unchanged_vars & other.m_unchanged_vars);
+                             // An implication remembered by one operand
+                             // is valid only while ITS variables are
+                             // unchanged: the marks are intersected.
+                             m_unchanged_vars | other.m_unchanged_vars);
   }
 
   void operator&=(const bool_num_domain_t &other) override {
@@ -1152,7 +1155,7 @@ public:
     m_bool_to_lincsts = m_bool_to_lincsts & other.m_bool_to_lincsts;
     m_bool_to_refcsts = m_bool_to_refcsts & other.m_bool_to_refcsts;
     m_bool_to_bools = m_bool_to_bools & other.m_bool_to_bools;
-    m_unchanged_vars = m_unchanged_vars & other.m_unchanged_vars;
+    m_unchanged_vars = m_unchanged_vars | other.m_unchanged_vars;
   }
   
   bool_num_domain_t operator||(const bool_num_domain_t &other) const override {
@@ -1178,7 +1181,7 @@ public:
                              m_bool_to_lincsts && other.m_bool_to_lincsts,
                              m_bool_to_refcsts && other.m_bool_to_refcsts,
 			     m_bool_to_bools && other.m_bool_to_bools,
-                             m_unchanged_vars && other.m_unchanged_vars);
+                             m_unchanged_vars | other.m_unchanged_vars);
   }
 
   // numerical_domains_api
